@@ -41,6 +41,7 @@ func (g batchGen) gen(rt *rapid.T) BatchSc {
 	}
 	b.HasFb = g.Fb && rapid.Bool().Draw(rt, "hasfb")
 	b.ExecAny = rapid.Bool().Draw(rt, "execany")
+	b.ErrBoth = rapid.Bool().Draw(rt, "errboth")
 	b.CfgBits = rapid.IntRange(0, 31).Draw(rt, "cfgbits")
 	switch g.Gated {
 	case 1:
@@ -56,7 +57,7 @@ func (g batchGen) gen(rt *rapid.T) BatchSc {
 		for a := 0; a < na; a++ {
 			o := Outcome{Pay: uniform(rt, numPayKinds, "pay")}
 			if perMille(rt, g.PFail, "fail") {
-				o.Err = 1 + uniform(rt, 4, "flavor")
+				o.Err = errFlavors[uniform(rt, len(errFlavors), "flavor")]
 			} else if !b.ExecAny && perMille(rt, g.PResErr, "reserr") {
 				o.Err = 6
 			}
